@@ -219,6 +219,26 @@ def _store_array(
                 )
                 warn(warn_msg, stacklevel=2)
                 source = source.rechunk(target.shards)
+        if is_storage_array(target) and getattr(target, "shards", None) is None:
+            # every task must write whole chunks of the target, otherwise concurrent
+            # tasks sharing a chunk would overwrite each other's data
+            try:
+                target_chunks = target.chunks
+            except NotImplementedError:
+                target_chunks = None  # rectilinear chunk grid
+            if target_chunks is not None and len(target_chunks) == source.ndim:
+                if region is None or all(r == slice(None) for r in region):
+                    aligned = all(
+                        sc % tc == 0 or nb == 1
+                        for sc, tc, nb in zip(
+                            source.chunksize, target_chunks, source.numblocks
+                        )
+                    )
+                else:
+                    # regions map source blocks one-to-one onto target chunks
+                    aligned = tuple(source.chunksize) == tuple(target_chunks)
+                if not aligned:
+                    source = source.rechunk(target_chunks)
     if not is_storage_array(target):
         target = lazy_zarr_array(
             target,
